@@ -198,3 +198,182 @@ Proof.
   eexists. split; [vm_compute; reflexivity|]. repeat split; try (vm_compute; reflexivity).
   apply (spanning_connected _ 4%nat [0; 4; 1]%nat). apply is_spanning_tree_sound. vm_compute. reflexivity.
 Qed.
+
+(* ====================================================================================================
+   Appended: the two clauses listed above as "NOT covered by a theorem" ("without a cycle", "precisely
+   all sectors compatible with the global parity constraint") ARE covered by the theorems below
+   (Proofs/SpanTreeAcyclic.v, Proofs/SectorCount.v).  Still S/K only: "does not modify its input".
+   ==================================================================================================== *)
+From Koala Require Import Proofs.FluxLattice Proofs.SpanTreeAcyclic Proofs.SectorCount.
+
+(* clause "connect all F plaquettes WITHOUT A CYCLE".  Definition of cycle (the plaquette graph is a
+   multigraph, so through edges): [twalk ep tree x [e1;..;ek] y] is a walk x -e1- .. -ek- y of the
+   plaquette graph through tree edges (e_i in tree, two-sided, its two sides are the consecutive
+   plaquettes, either direction; same adjacency as [tconn], see C14_walks_are_tconn); a cycle is a
+   closed walk of length >= 1 with pairwise distinct edges (length 1: an edge with the same plaquette on
+   both sides; length 2: two parallel edges).  For EVERY order oracle, any tables (no hypothesis), the
+   returned tree has none; more strongly every non-empty edge-simple walk has two different ends.
+   Proof: generic lemma [attached_acyclic] — a graph built by repeatedly attaching a NEW vertex by ONE
+   edge to the part already built has no cycle (the vertex attached last is a leaf) — applied to the
+   growth invariant of C14_tree_links (edge i joins a plaquette in the tree to one not yet in it) *)
+Theorem C14_tree_acyclic : forall (order : order_fn) (ep : list ep_row) (pes : list (list nat)) t tree,
+  plaquette_spanning_tree order ep pes = Some t -> all_some t = Some tree ->
+  (forall x es y, twalk ep tree x es y -> NoDup es -> es <> [] -> x <> y)
+  /\ (forall q es, twalk ep tree q es q -> NoDup es -> es = []).
+Proof. exact tree_acyclic_lemma. Qed.
+Print Assumptions C14_tree_acyclic.
+
+(* the same for the links actually found when some iteration found none (entries -1 skipped) *)
+Theorem C14_tree_links_acyclic : forall (order : order_fn) (ep : list ep_row) (pes : list (list nat)) tr,
+  spanning_trace order ep pes = Some tr ->
+  (forall x es y, twalk ep (map fst (somes tr)) x es y -> NoDup es -> es <> [] -> x <> y)
+  /\ (forall q es, twalk ep (map fst (somes tr)) q es q -> NoDup es -> es = []).
+Proof. exact tree_links_acyclic. Qed.
+Print Assumptions C14_tree_links_acyclic.
+
+(* the walks of the acyclicity statement are the connections of C14_tree_spec ... *)
+Theorem C14_walks_are_tconn : forall (ep : list ep_row) (tree : list nat) (a b : nat),
+  tconn ep tree a b <-> exists es, twalk ep tree a es b.
+Proof. exact tconn_iff_twalk. Qed.
+Print Assumptions C14_walks_are_tconn.
+
+(* ... and the definition of "no cycle" is not vacuous: two different edges of the list with the same
+   two plaquettes on their sides are a cycle *)
+Theorem C14_parallel_edges_are_a_cycle : forall (ep : list ep_row) (tree : list nat) (e f a b : nat),
+  In e tree -> In f tree -> e <> f ->
+  (two_sided ep e = Some (a, b) \/ two_sided ep e = Some (b, a)) ->
+  (two_sided ep f = Some (a, b) \/ two_sided ep f = Some (b, a)) ->
+  ~ (forall q es, twalk ep tree q es q -> NoDup es -> es = []).
+Proof. exact parallel_edges_cycle. Qed.
+Print Assumptions C14_parallel_edges_are_a_cycle.
+
+(* non-vacuity: on the 2x2 torus (tables computed by the model) the tree [0;4;1] returned by the
+   routine has no cycle, while adding edge 2 (parallel to edge 0) or edge 5 (closing the square
+   0 -0- 1 -5- 3 -1- 2 -4- 0) creates one *)
+Example C14_tree_acyclic_nonvacuous :
+  exists ps, find_all_plaquettes torus22 = Some ps
+    /\ plaquette_spanning_tree order_id (edges_plaquettes torus22 ps) (map p_edges ps)
+       = Some [Some 0%nat; Some 4%nat; Some 1%nat]
+    /\ (forall q es, twalk (edges_plaquettes torus22 ps) [0; 4; 1]%nat q es q -> NoDup es -> es = [])
+    /\ ~ (forall q es, twalk (edges_plaquettes torus22 ps) [0; 4; 1; 2]%nat q es q -> NoDup es -> es = [])
+    /\ twalk (edges_plaquettes torus22 ps) [0; 4; 1; 5]%nat 0%nat [0; 5; 1; 4]%nat 0%nat.
+Proof.
+  eexists. split; [vm_compute; reflexivity|].
+  match goal with |- context [edges_plaquettes torus22 ?p] => set (ps := p) end.
+  assert (Ht : plaquette_spanning_tree order_id (edges_plaquettes torus22 ps) (map p_edges ps)
+               = Some [Some 0%nat; Some 4%nat; Some 1%nat]) by (vm_compute; reflexivity).
+  split; [exact Ht|]. split; [|split].
+  - exact (proj2 (C14_tree_acyclic order_id _ _ _ [0; 4; 1]%nat Ht eq_refl)).
+  - apply (C14_parallel_edges_are_a_cycle _ _ 0%nat 2%nat 0%nat 1%nat).
+    + simpl. auto.
+    + simpl. auto.
+    + discriminate.
+    + left. vm_compute. reflexivity.
+    + right. vm_compute. reflexivity.
+  - apply (twalk_step _ _ 0%nat 1%nat); [simpl; auto|left; vm_compute; reflexivity|].
+    apply (twalk_step _ _ 1%nat 3%nat); [simpl; auto|right; vm_compute; reflexivity|].
+    apply (twalk_step _ _ 3%nat 2%nat); [simpl; auto|right; vm_compute; reflexivity|].
+    apply (twalk_step _ _ 2%nat 0%nat); [simpl; auto|left; vm_compute; reflexivity|].
+    constructor.
+Qed.
+
+(* counting step of the last clause: the +-1 vectors of length F >= 1 with prescribed product c are
+   exactly 2^(F-1) many — they are enumerated without repetition by a list of that length (bijection
+   with the free choice of F-1 entries, the remaining entry being c times their product) *)
+Theorem C14_parity_sectors_count : forall (F : nat) (c : Z), (1 <= F)%nat -> c = 1 \/ c = -1 ->
+  exists l : list (list Z), NoDup l /\ length l = (2 ^ (F - 1))%nat
+    /\ forall s, In s l <-> (length s = F /\ Forall (fun x => x = 1 \/ x = -1) s /\ zprod s = c).
+Proof. exact parity_sectors_count. Qed.
+Print Assumptions C14_parity_sectors_count.
+
+Example C14_parity_sectors_count_nonvacuous :
+  exists l : list (list Z), NoDup l /\ length l = 8%nat
+    /\ In [-1; -1; -1; -1] l /\ In [1; -1; 1; -1] l /\ ~ In [1; 1; 1; -1] l /\ ~ In [1; 1; 1] l.
+Proof.
+  destruct (C14_parity_sectors_count 4 1) as (l & Hnd & Hlen & Hin); [repeat constructor|now left|].
+  exists l. split; [exact Hnd|]. split; [exact Hlen|].
+  split; [|split; [|split]].
+  - apply Hin. split; [reflexivity|]. split; [repeat constructor; now right|reflexivity].
+  - apply Hin. split; [reflexivity|]. split; [|reflexivity].
+    repeat constructor; (now left) || (now right).
+  - intros H. apply Hin in H. destruct H as (_ & _ & H). discriminate.
+  - intros H. apply Hin in H. destruct H as (H & _). discriminate.
+Qed.
+
+(* clause "on a closed lattice precisely all sectors compatible with the global parity constraint",
+   end to end on the model: for every well-formed lattice without self-loops whose plaquette graph is
+   connected and which is closed (every directed edge lies on a plaquette, as in C05_global_parity_model),
+   every order oracle that scans all boundary edges and ANY +-1 base bonds: a vector s is the flux sector
+   of some n < 2^(F-1)  IFF  s is a +-1 vector of length F with product (-1)^E.  "=>" is C05's global
+   parity; "<=" is C14_sectors_distinct (2^(F-1) pairwise different sectors) + C14_parity_sectors_count
+   + stdlib NoDup_length_incl (a duplicate-free list included in a list of the same length contains it) *)
+Theorem C14_sectors_all_parity_compatible : forall (L : lattice) (order : order_fn) (ps : list plaquette) t,
+  wf_lattice L = true -> no_self_loops L = true ->
+  find_all_plaquettes L = Some ps ->
+  (forall n b, incl b (order n b)) ->
+  (forall q, (q < length ps)%nat -> gconn (edges_plaquettes L ps) 0%nat q) ->
+  (forall d, In d (all_darts L) -> In d (flat_map plaq_darts ps)) ->
+  spanning_tree_of_lattice order L = Some t ->
+  exists tree, all_some t = Some tree /\ S (length tree) = length ps
+    /\ forall u, (forall e, (e < nE L)%nat -> bond u e = 1 \/ bond u e = -1) ->
+       forall s,
+         (length s = length ps /\ Forall (fun x => x = 1 \/ x = -1) s /\ zprod s = (-1) ^ Z.of_nat (nE L))
+         <-> (exists n r, 0 <= n < 2 ^ Z.of_nat (length tree) /\ n_to_ujk_flipped n u tree = Some r
+                          /\ fluxes_real r ps = s).
+Proof. exact model_sectors_all_parity. Qed.
+Print Assumptions C14_sectors_all_parity_compatible.
+
+(* the same on given tables (the implementation's), with the boolean tests the harness evaluates:
+   ep_agrees (tables agree), darts_cover (closed: the plaquettes' directed edges are the directed edges
+   of L, each once); no connectivity hypothesis, but the run must have found a link in every iteration *)
+Theorem C14_sectors_all_parity_compatible_checked :
+  forall (L : lattice) (order : order_fn) (ep : list ep_row) (ps : list plaquette) t tree (u : list Z),
+  (forall p, In p ps -> length (p_dirs p) = length (p_edges p) /\ NoDup (p_edges p)) ->
+  ep_agrees ep (map p_edges ps) = true -> darts_cover L ps = true ->
+  plaquette_spanning_tree order ep (map p_edges ps) = Some t -> all_some t = Some tree ->
+  (forall e, (e < nE L)%nat -> bond u e = 1 \/ bond u e = -1) ->
+  S (length tree) = length ps
+  /\ forall s,
+    (length s = length ps /\ Forall (fun x => x = 1 \/ x = -1) s /\ zprod s = (-1) ^ Z.of_nat (nE L))
+    <-> (exists n r, 0 <= n < 2 ^ Z.of_nat (length tree) /\ n_to_ujk_flipped n u tree = Some r
+                     /\ fluxes_real r ps = s).
+Proof. exact sectors_all_parity_checked. Qed.
+Print Assumptions C14_sectors_all_parity_compatible_checked.
+
+(* non-vacuity: the 2x2 torus (F = 4, E = 8, closed, connected) satisfies every hypothesis; by the
+   theorem the even sector [-1;-1;-1;-1] (product +1 = (-1)^8) is reached by some n < 8 and the odd
+   sector [1;1;1;-1] by none *)
+Example C14_sectors_all_parity_compatible_nonvacuous :
+  exists ps, find_all_plaquettes torus22 = Some ps
+    /\ wf_lattice torus22 = true /\ no_self_loops torus22 = true
+    /\ length ps = 4%nat /\ nE torus22 = 8%nat
+    /\ darts_cover torus22 ps = true
+    /\ (forall q, (q < length ps)%nat -> gconn (edges_plaquettes torus22 ps) 0%nat q)
+    /\ spanning_tree_of_lattice order_id torus22 = Some [Some 0%nat; Some 4%nat; Some 1%nat]
+    /\ (exists n r, 0 <= n < 8 /\ n_to_ujk_flipped n torus22_u [0; 4; 1]%nat = Some r
+                    /\ fluxes_real r ps = [-1; -1; -1; -1])
+    /\ ~ (exists n r, 0 <= n < 8 /\ n_to_ujk_flipped n torus22_u [0; 4; 1]%nat = Some r
+                      /\ fluxes_real r ps = [1; 1; 1; -1]).
+Proof.
+  eexists. split; [vm_compute; reflexivity|].
+  match goal with |- context [darts_cover torus22 ?p] => set (ps := p) end.
+  assert (Hf : find_all_plaquettes torus22 = Some ps) by (vm_compute; reflexivity).
+  assert (Hwf : wf_lattice torus22 = true) by (vm_compute; reflexivity).
+  assert (Hnl : no_self_loops torus22 = true) by (vm_compute; reflexivity).
+  assert (Hcov : darts_cover torus22 ps = true) by (vm_compute; reflexivity).
+  assert (Hconn : forall q, (q < length ps)%nat -> gconn (edges_plaquettes torus22 ps) 0%nat q).
+  { apply (spanning_connected _ 4%nat [0; 4; 1]%nat). apply is_spanning_tree_sound. vm_compute. reflexivity. }
+  assert (Ht : spanning_tree_of_lattice order_id torus22 = Some [Some 0%nat; Some 4%nat; Some 1%nat])
+    by (vm_compute; reflexivity).
+  assert (Hclosed : forall d, In d (all_darts torus22) -> In d (flat_map plaq_darts ps)).
+  { intros d Hd. apply (Permutation.Permutation_in d (Permutation.Permutation_sym (darts_cover_sound _ _ Hcov)) Hd). }
+  destruct (C14_sectors_all_parity_compatible torus22 order_id ps _ Hwf Hnl Hf order_id_incl Hconn Hclosed Ht)
+    as (tree & Hall & _ & Hiff).
+  vm_compute in Hall. inversion Hall; subst tree.
+  assert (Hu : forall e, (e < nE torus22)%nat -> bond torus22_u e = 1 \/ bond torus22_u e = -1).
+  { intros e He. apply all_pm1_bond; [vm_compute; reflexivity|exact He]. }
+  specialize (Hiff torus22_u Hu).
+  repeat split; try assumption; try reflexivity.
+  - apply Hiff. split; [reflexivity|]. split; [repeat constructor; now right|reflexivity].
+  - intros H. apply Hiff in H. destruct H as (_ & _ & H). vm_compute in H. discriminate.
+Qed.
